@@ -16,6 +16,11 @@ def check(F, rep, tier):
     info = parsers.analyse_from_str(F, f, rep, "R08", MODULE)
     # ---- R08.1 language equality ------------------------------------------------
     if info.get("pattern") is not None:
+        pre = rx.run({"subject_regex": {"pat": info["pattern"], "unicode": True, "ascii_groups": []}}, [])
+        if not pre["patterns"]["subject_regex"].get("ok"):
+            rep.bad("R08.1", "regex-does-not-compile", "SEMVER_REGEX does not compile: %s" % pre["patterns"]["subject_regex"].get("error"), info.get("static"))
+            return core.finish(rep, explanation=EXPL, assumptions=ASSUME, trusted=TRUST)
+        info["checked_groups"] = parsers.checked_groups(F, info, pre["patterns"]["subject_regex"]["groups"], rep, "R08")
         pats = {
             "subject_regex": {"pat": info["pattern"], "unicode": True, "ascii_groups": []},
             "subject_effective": {"pat": info["pattern"], "unicode": True, "ascii_groups": sorted(info["checked_groups"])},
